@@ -33,12 +33,12 @@ import (
 )
 
 type OpE struct {
-	Kind    string `json:"kind"` // issue upload relay handout callback
+	Kind    string `json:"kind"` // issue upload relay handout callback session
 	Agent   int    `json:"agent"`
 	Cmd     int    `json:"cmd,omitempty"`     // issue: index into issueCmds
 	Src     string `json:"src,omitempty"`     // callback: outstanding completed foreign never zero
 	Pick    int    `json:"pick,omitempty"`    // callback: which candidate id
-	Variant int    `json:"variant,omitempty"` // callback: which kind among the applicable ones
+	Variant int    `json:"variant,omitempty"` // callback: which kind among the applicable ones; session: which message (sessionMsgs)
 	AnyKind bool   `json:"anykind,omitempty"` // callback: kind drawn from all kinds instead of those of the id's command
 	Replay  bool   `json:"replay,omitempty"`  // callback: send the identical package a second time
 	Force   string `json:"force,omitempty"`   // callback: this kind (by name) instead of Variant/AnyKind
@@ -54,6 +54,21 @@ type CaseE struct {
 }
 
 var srcsE = []string{"outstanding", "completed", "foreign", "never", "zero"}
+
+// session-level messages an agent may send for its own, existing id between the hand-out
+// and the completion of its tasks.  On the tree the model was written from none of them
+// changes the set of outstanding ids and none hands a task out again:
+//
+//	reinit-same / reinit-new   DEMON_INIT again (handlers.go, "reconnect" branch of an existing
+//	                           agent: answers with the agent id under the stored key and ignores
+//	                           key and metadata of the package) - for a pivot child the same
+//	                           thing is a repeated SMB_CONNECT of the linked child by its parent
+//	                           (TaskDispatch COMMAND_PIVOT, AgentExist branch: relinks, updates)
+//	plain                      a GET_JOB check-in with nothing queued
+//
+// (the COMMAND_CHECKIN metadata refresh is the callback kind "checkin"; this fixture has no
+// External-C2 endpoint)
+var sessionMsgs = []string{"reinit-same", "reinit-new", "plain"}
 
 func genE(t *rapid.T) CaseE {
 	var c CaseE
@@ -76,7 +91,7 @@ func genE(t *rapid.T) CaseE {
 	n := rapid.IntRange(1, 30).Draw(t, "nops")
 	for i := 0; i < n; i++ {
 		op := OpE{Agent: agentfx.Bits(t, "agent", 2) % c.Agents}
-		switch agentfx.Weighted(t, "kind", 26, 4, 4, 6, 60) {
+		switch agentfx.Weighted(t, "kind", 26, 4, 4, 6, 52, 8) {
 		case 0:
 			op.Kind = "issue"
 			op.Cmd = rapid.IntRange(0, len(issueCmds)-1).Draw(t, "cmd")
@@ -88,6 +103,9 @@ func genE(t *rapid.T) CaseE {
 			op.N = rapid.Uint32Range(1, 64).Draw(t, "n")
 		case 3:
 			op.Kind = "handout"
+		case 5:
+			op.Kind = "session"
+			op.Variant = agentfx.Bits(t, "msg", 2)
 		default:
 			op.Kind = "callback"
 			op.Src = srcsE[agentfx.Weighted(t, "src", 34, 18, 22, 8, 18)]
@@ -432,6 +450,40 @@ func checkE(c CaseE) (viol *core.Violation) {
 			if v := drain(g); v != nil {
 				return v
 			}
+		case "session":
+			// nothing of this is a callback to a task; the history simply goes on afterwards and the
+			// gate is judged by the callbacks and probes that follow
+			if v := drain(g); v != nil {
+				return v
+			}
+			msg := sessionMsgs[op.Variant%len(sessionMsgs)]
+			lastE.labels["session:"+msg] = true
+			if len(m.out) > 0 {
+				lastE.labels["session-msg-with-outstanding-task"] = true
+			}
+			code := 200
+			switch msg {
+			case "plain":
+				code, _, _ = w.post(g, nil)
+			default:
+				key, iv, meta := ses.Key, ses.IV, agentfx.Meta(ses.ID)
+				if msg == "reinit-new" {
+					key, iv = agentfx.KeyFor(ses.ID ^ 0x5a5a)
+					meta.Hostname, meta.Username, meta.PID, meta.Sleep = "OTHERHOST", "other", 999, 30
+				}
+				init := meta.InitPackage(ses.ID, key, iv)
+				if w.parent[g] < 0 {
+					code, _ = w.ep.Serve(init)
+				} else {
+					lastE.labels["session:smb-reconnect"] = true
+					body := (&demonref.Enc{}).Int32(demonref.PivotSmbCon).Int32(1).Bytes(init).B
+					code, _, _ = w.post(w.parent[g], []demonref.Sub{{Cmd: demonref.CmdPivot, ReqID: 0, Body: body}})
+				}
+			}
+			w.rec.Take()
+			if code != 200 {
+				return core.V("harness|session-message", "%s of agent %d answered HTTP %d", msg, g, code)
+			}
 		case "callback":
 			// everything queued in g's tree is handed out first, so that the request below carries
 			// the callback only and its recorded events are bookkeeping + the callback's effects
@@ -727,7 +779,7 @@ func classifyE(c CaseE) core.Class {
 func TestC05a(t *testing.T) {
 	core.Run(t, core.Spec[CaseE]{
 		Property: "C05", Sub: "a",
-		Rule: fmt.Sprintf("histories of 1-30 operations over a forest of 2-4 agents (roots registered through the real agent endpoint, SMB children linked by a real SMB_CONNECT callback of their parent, depth <= 2; tsx.Recorder as teamserver, private loot tree, SendLogs on in 1/4 of the cases): issue a task to any agent (AddJobToQueue with a fresh request id, one of %d commands; for a child it is wrapped into COMMAND_PIVOT jobs of its ancestors), operator fs-upload (mem-file chunk tasks, direct agents), relay job without request id (SOCKS write), hand-out, callback = one of %d well-formed callback kinds (payloads as Package.c builds them) sent by any agent - directly or relayed hop by hop as COMMAND_PIVOT/SMB_COMMAND - carrying an id from {own outstanding, own completed, outstanding at a descendant / at another agent, never issued, 0}, optionally replayed byte for byte. Oracle: (1) a callback whose id was not issued to THAT agent or is completed (kind not socket/pivot, not beacon-output with SendLogs) records nothing beyond the bookkeeping of a body-less request on the same path, leaves every agent's outstanding-id list, session data and the loot tree unchanged - whatever else the teamserver queued for or through that agent; (2) after a callback from the finality table was processed with an outstanding id, the same package again, and any later callback with that id, has no effect. Non-trivial: a rejected callback of an effectful kind whose id was completed, foreign or a descendant's; distinct = (pivot depth, SendLogs, set of plausible rejected id sources, set of contexts in which id 0 was probed)", len(issueCmds), len(kinds)),
+		Rule: fmt.Sprintf("histories of 1-30 operations over a forest of 2-4 agents (roots registered through the real agent endpoint, SMB children linked by a real SMB_CONNECT callback of their parent, depth <= 2; tsx.Recorder as teamserver, private loot tree, SendLogs on in 1/4 of the cases): issue a task to any agent (AddJobToQueue with a fresh request id, one of %d commands; for a child it is wrapped into COMMAND_PIVOT jobs of its ancestors), operator fs-upload (mem-file chunk tasks, direct agents), relay job without request id (SOCKS write), hand-out, a session-level message of an agent for its own id (DEMON_INIT again with the same or another key and metadata - for a pivot child a repeated SMB_CONNECT by its parent -, a plain check-in), callback = one of %d well-formed callback kinds (payloads as Package.c builds them) sent by any agent - directly or relayed hop by hop as COMMAND_PIVOT/SMB_COMMAND - carrying an id from {own outstanding, own completed, outstanding at a descendant / at another agent, never issued, 0}, optionally replayed byte for byte. Oracle: (1) a callback whose id was not issued to THAT agent or is completed (kind not socket/pivot, not beacon-output with SendLogs) records nothing beyond the bookkeeping of a body-less request on the same path, leaves every agent's outstanding-id list, session data and the loot tree unchanged - whatever else the teamserver queued for or through that agent; (2) after a callback from the finality table was processed with an outstanding id, the same package again, and any later callback with that id, has no effect. Non-trivial: a rejected callback of an effectful kind whose id was completed, foreign or a descendant's; distinct = (pivot depth, SendLogs, set of plausible rejected id sources, set of contexts in which id 0 was probed)", len(issueCmds), len(kinds)),
 		Gen:  genE, Check: checkE, Classify: classifyE,
 		Assumptions: []string{
 			"finality table: a callback kind ends its task only where the Demon handler (payloads/Demon/src/core/Command.c) transmits exactly one package of that kind as its last action and starts nothing that reports later; streaming/asynchronous kinds never complete a task in the model",
